@@ -163,6 +163,18 @@ func runImpl[F any](name string, tr seq.Seq[F, int], xs []int, depth int) drv.Re
 	if w.observe(s, xs, script, "right after New") {
 		w.explore(s, xs, script, 0)
 	}
+	if len(xs) <= 3 && len(r.Viols) == 0 {
+		// the same start from an argument slice with 256 spare slots (an empty one is then non-nil and has capacity):
+		// what a caller gets from make([]T, 0, n) followed by a few appends
+		roomy := append(make([]int, 0, 256), xs...)
+		w.depth = min(depth, 4)
+		s2 := tr.New(roomy...)
+		script2 := []string{fmt.Sprintf("New(%s...) from a slice of capacity 256", brief(xs))}
+		if w.observe(s2, xs, script2, "right after New") {
+			w.explore(s2, xs, script2, 0)
+		}
+		w.depth = depth
+	}
 	if len(xs) > 1000 && len(r.Viols) == 0 {
 		// a fold that is slow on one early element: were the elements of a long sequence combined by several goroutines
 		// (chunk by chunk) and the partial results merged in completion order, the chunk holding that element would
@@ -211,7 +223,7 @@ func main() {
 	}
 	drv.Main(drv.Property{
 		ID: "C19", Level: "model_checking", PanicIsViolation: true, MemLimitGB: 4,
-		Rule:        "one case = (implementation list|slice, start New(xs) for every xs over {1,2,3} of length <= 3, plus long argument lists of 8..100 elements explored to depth 2 and of 1025, 3000, 4097 elements explored to depth 1, also folded with an operation that is slow on one early element); from it every script of Cons(1|2|3) / Tail of length <= 6 (8 in thorough) is executed on the real trait (a tree of values, no de-duplication, because hidden state such as slice capacity differs between paths); each produced value is observed (Length, IsEmpty, Head/Tail walk, Fold with the non-commutative operation a*10+b from empty 7) right after the operation, the argument is re-observed, and every value is re-observed after all its later siblings and descendants were built; states = distinct element lists reached, transitions = operations executed; both implementations are compared with the same []int reference, hence with each other",
+		Rule:        "one case = (implementation list|slice, start New(xs) for every xs over {1,2,3} of length <= 3 (from an exact-size argument slice and, to depth 4, from one with 256 spare slots), plus long argument lists of 8..100 elements explored to depth 2 and of 1025, 3000, 4097 elements explored to depth 1, also folded with an operation that is slow on one early element); from it every script of Cons(1|2|3) / Tail of length <= 6 (8 in thorough) is executed on the real trait (a tree of values, no de-duplication, because hidden state such as slice capacity differs between paths); each produced value is observed (Length, IsEmpty, Head/Tail walk, Fold with the non-commutative operation a*10+b from empty 7) right after the operation, the argument is re-observed, and every value is re-observed after all its later siblings and descendants were built; states = distinct element lists reached, transitions = operations executed; both implementations are compared with the same []int reference, hence with each other",
 		Assumptions: []string{"element values 1..3 stand for all values (the traits are parametric)", "New(xs...) aliasing its argument slice is outside the statement and not checked"},
 		Cases: func(string) (int, func(int) string) {
 			return 2 * len(starts), func(i int) string {
